@@ -32,6 +32,7 @@ type ttTable struct {
 	expect   func(v map[string]bool) string
 	outcome  func(fa *FnAnalysis, st *State, ret *ssa.Return) string
 	note     string
+	optional func(v map[string]bool) bool // rows that need not be reachable (e.g. excluded by a proved invariant)
 }
 
 // findCalls returns the calls in fn whose callee name is in names.
@@ -219,7 +220,7 @@ func (c *Ctx) runTable(tb ttTable) {
 				bad = append(bad, fmt.Sprintf("%s: returns %s, the property prescribes %s", fmtValuation(tb.atoms, v), got, want))
 			}
 		}
-		if matched == 0 {
+		if matched == 0 && !(tb.optional != nil && tb.optional(v)) {
 			bad = append(bad, fmt.Sprintf("%s: no return path is compatible with this row", fmtValuation(tb.atoms, v)))
 		}
 	}
@@ -609,5 +610,73 @@ func (c *Ctx) ttIsEmpty() {
 			return fmt.Sprint(v["Len()==0"])
 		},
 		outcome: c.boolOutcome(0),
+	})
+}
+
+// ttCapLenEqual: two length/capacity pairs are "equal" exactly when both the
+// capacities and the lengths agree.
+func (c *Ctx) ttCapLenEqual() {
+	eq := func(name string, a, b int) ttAtom {
+		return c.atomTerm(name, aTR, func(fa *FnAnalysis, st *State) *Term {
+			return c.eng.tt.mk(Term{K: "B", S: "==", A: c.param(fa, a), B: c.param(fa, b)})
+		}, false)
+	}
+	c.runTable(ttTable{
+		rule: "R-TT", fn: "capLenEqual",
+		atoms:   []ttAtom{eq("c1==c2", 0, 1), eq("l1==l2", 2, 3)},
+		expect:  func(v map[string]bool) string { return fmt.Sprint(v["c1==c2"] && v["l1==l2"]) },
+		outcome: c.boolOutcome(0),
+	})
+}
+
+// ttStackValid: a stack is valid exactly when it is initialised and its
+// validity closure - if one is installed - returns nil.  Nothing else (a
+// recorded error, an option) makes a stack invalid: Traverse, String and
+// Valid all gate on this verdict.
+func (c *Ctx) ttStackValid() {
+	slotIdx := c.fieldIndex("nodeConfig", "vpf")
+	c.runTable(ttTable{
+		rule: "R-TT", fn: "(*stack).valid",
+		atoms: []ttAtom{
+			c.atomCallBool("INIT", []string{"(*stack).isInit", "stack.isInit"}, nil),
+			{"closure", func(fa *FnAnalysis, st *State) (bool, bool) {
+				for _, f := range st.factList() {
+					if f.Kind == aNN && f.T.K == "L" && f.T.A != nil && f.T.A.K == "FA" && f.T.A.N == slotIdx {
+						return f.Val, true
+					}
+				}
+				return false, false
+			}},
+			{"verdict==nil", func(fa *FnAnalysis, st *State) (bool, bool) {
+				for _, call := range c.closureCalls(fa.fn, "vpf") {
+					if v, known := fa.nonNil(st, call); known {
+						return !v, true
+					}
+				}
+				return false, false
+			}},
+		},
+		feasible: func(v map[string]bool) bool {
+			if !v["INIT"] && (v["closure"] || v["verdict==nil"]) {
+				return false
+			}
+			if !v["closure"] && v["verdict==nil"] {
+				return false
+			}
+			return true
+		},
+		expect: func(v map[string]bool) string {
+			if !v["INIT"] {
+				return "false"
+			}
+			if !v["closure"] {
+				return "true"
+			}
+			return fmt.Sprint(v["verdict==nil"])
+		},
+		// the engine assumes the pointer receiver non-nil and slot 0 to hold the configuration,
+		// which leaves no "not initialised" path in this function
+		optional: func(v map[string]bool) bool { return !v["INIT"] },
+		outcome:  c.boolOutcome(0),
 	})
 }
